@@ -70,6 +70,29 @@ type Ctx struct {
 	lean       map[string]any // report of the Lean step written by ./check
 	modelReqs  int
 	disagree   int // model/impl disagreements examined
+	crumb      *os.File
+}
+
+// the context of this process (for crumb, which is called from helpers that have no context at hand)
+var currentCtx *Ctx
+
+func crumb(s string) {
+	if currentCtx != nil {
+		currentCtx.Crumb(s)
+	}
+}
+
+// Crumb records what the harness is about to run in-process (one pwrite into .work/<prop>_current.txt). If the code
+// under test kills the process with a fatal runtime error, `check` puts this line into the replay it writes.
+func (c *Ctx) Crumb(s string) {
+	if c.crumb == nil {
+		f, err := os.OpenFile(filepath.Join(verifRoot, ".work", c.Prop+"_current.txt"), os.O_CREATE|os.O_WRONLY|os.O_TRUNC, 0o644)
+		if err != nil {
+			return
+		}
+		c.crumb = f
+	}
+	c.crumb.WriteAt([]byte(strings.ReplaceAll(s, "\n", " ")+"\n"), 0)
 }
 
 func NewCtx(prop, tier string) *Ctx {
@@ -91,6 +114,7 @@ func NewCtx(prop, tier string) *Ctx {
 			_ = json.Unmarshal(data, &c.lean)
 		}
 	}
+	currentCtx = c
 	return c
 }
 
